@@ -48,12 +48,24 @@ def agg_list(draw, files_only):
 
 @st.composite
 def strategy_(draw, tier):
-    spec = trees.attr_tree(draw, sizes=(1, 2, 3, 6, 12, 20, 30))
-    if draw(st.sampled_from(range(4))) == 0:
+    shape = draw(st.sampled_from(["attr", "attr", "attr", "cluster", "cluster-mixed"]))
+    if shape == "attr":
+        spec = trees.attr_tree(draw, sizes=(1, 2, 3, 6, 12, 20, 30))
+    else:
+        # large values with a small spread: the numerically hard case for mean / variance
+        spec = trees.attr_tree(draw, sizes=(2, 4, 8)) if shape == "cluster-mixed" else {}
+        b = draw(st.sampled_from([2 ** 27, 2 ** 30, 2 ** 32, 2 ** 33, 10 ** 10, 2 ** 40, 3 * 10 ** 12]))
+        k = draw(st.sampled_from([2, 3, 5, 8]))
+        scale = draw(st.sampled_from([1, 1, 7, 1024]))
+        for i in range(k):
+            spec["big%d.bin" % i] = {"t": "f", "size": b + scale * draw(st.sampled_from([0, 1, 2, 3, 4, 7, 11, 100, 999]))}
+    if shape == "attr" and draw(st.sampled_from(range(4))) == 0:
         spec["huge1"] = {"t": "f", "size": 5000000000}
         if draw(st.booleans()):
             spec["huge2"] = {"t": "f", "size": 4294967296}
     w = draw(st.sampled_from(["none", "none", "atom", "files", "files", "nothing"]))
+    if shape != "attr":
+        w = draw(st.sampled_from(["none", "big", "big", "files"]))
     where = None
     if w == "atom":
         a = draw(c02.atom(*c02._spec_values(spec)))
@@ -61,9 +73,13 @@ def strategy_(draw, tier):
             where = c02.render(a)
     elif w == "files":
         where = "is_file = true"
+    elif w == "big":
+        where = "size >= 100m"
     elif w == "nothing":
         where = "size < 0 or name = 'no-such-entry'" if draw(st.booleans()) else "name = 'no-such-entry'"
     aggs = draw(agg_list(w == "files"))
+    if shape != "attr":
+        aggs = [dict(a, inner="size") if a["inner"] == "line_count" else a for a in aggs]
     if any(a["inner"] == "line_count" for a in aggs):
         # counting the lines of a 5 GB sparse file legitimately takes longer than the CPU watchdog
         spec.pop("huge1", None)
@@ -107,7 +123,25 @@ def reference(f, vals):
     return v if f.startswith("var") else math.sqrt(float(v))
 
 
-def compare(f, cell, ref):
+def rounding_slack(f, vals):
+    """Absolute slack for the variance family that any f64 implementation of the textbook two-pass formula
+    needs: the mean of large values is rounded to an ulp e of its magnitude, so each deviation carries an error
+    of about e and the variance about 2*e*max|dev| + e^2 ("up to floating-point rounding")."""
+    if not vals or f in ("count", "sum", "min", "max", "avg"):
+        return 0.0
+    n = len(vals)
+    mean = sum(vals) / n
+    e = math.ulp(max(abs(float(v)) for v in vals) or 1.0)
+    dev = max(abs(v - mean) for v in vals)
+    var_slack = 8 * e * (dev + e)
+    if f.startswith("var"):
+        return var_slack
+    ref_var = sum((v - mean) ** 2 for v in vals) / max(1, n - (1 if f.endswith("samp") else 0))
+    sd = math.sqrt(ref_var)
+    return var_slack / (2 * sd) if sd > math.sqrt(var_slack) else math.sqrt(var_slack)
+
+
+def compare(f, cell, ref, vals=None):
     """None when fine, else a short reason."""
     if ref is None:
         return None
@@ -122,7 +156,7 @@ def compare(f, cell, ref):
         return "not a number"
     r = float(ref)
     tol = 1e-12 if f == "avg" else 1e-9
-    if x == r or abs(x - r) <= tol * max(abs(r), 1e-300):
+    if x == r or abs(x - r) <= tol * max(abs(r), 1e-300) + rounding_slack(f, vals):
         return None
     return "value differs"
 
@@ -184,7 +218,7 @@ def check(case):
                 ref = n
             else:
                 ref = reference(a["f"], v)
-            why = compare(a["f"], cell, ref)
+            why = compare(a["f"], cell, ref, v)
             if why:
                 out.add("C07/%s/%s" % (a["f"], "n=0" if n == 0 else "n=1" if n == 1 else "n>=2"), query=q, column=agg_text(a),
                         cell=cell, reference=str(float(ref) if isinstance(ref, Fraction) else ref), n=n, why=why,
@@ -199,6 +233,8 @@ def check(case):
             out.classes.append("fractional-mean")
         if case["where"]:
             out.classes.append("where")
+        if any(k.startswith("big") for k in case["tree"]):
+            out.classes.append("large-values-small-spread")
         for a in aggs:
             out.classes.append("f=" + a["f"])
         out.classes = sorted(set(out.classes))
